@@ -603,6 +603,17 @@ pub fn sweep_cases(n: usize) -> Vec<Case> {
             }
         }
     }
+    for &start in &starts {
+        for size in 0..=n {
+            for &start2 in &starts {
+                for size2 in 0..=n {
+                    for (kind, at) in [(0usize, 0u32), (5, 0), (5, 1), (5, 2)] {
+                        v.push(Case { op: "eq".into(), n, m: 0, start, size, a: 0, b: 0, start2, size2, kind, at });
+                    }
+                }
+            }
+        }
+    }
     for op in ["index", "index_mut"] {
         for &start in &starts {
             for size in 0..=n {
